@@ -17,7 +17,7 @@ func checkC08(r *Report) {
 	e := runEffect(p)
 	pathTrusted(r)
 	effectTrusted(r)
-	r.Explain = "Only the clauses of C08 that are visible in the shape of the code are decided; consistency of the backtracking search over all universes is not. C08.a SNAPSHOT-ISOLATED: a new search state is built from Clone/Copy of the previous one (resolution.pushNewState), versionMap.Clone re-makes both its map and its stack and fills them, and criterion.copy re-makes the two maps that are later updated in place, so backtracking to an earlier state finds it unchanged. C08.b VERSIONMAP: the pin table's map and insertion stack are written only by its own Set/Pop/Clone, and Set/Pop update both on every path, so there is one pinned version per package. C08.c GRAPH-SHAPE (buildGraph): a node is added only for a pin that has a route to the root and only when the package has no node yet, the id is recorded in the package-keyed table in the same step (one node per package, every node reachable), and every recorded requirement of a selected package ends in AddEdge, an error return, or the one documented skip (the parent has no node). C08.d ROOT-FIXED: for a requirement on the root's package provider.matchingVersions returns nothing but the root version. Not decided: that the selected versions satisfy their specifiers, pip's prerelease rule, marker evaluation, and everything about which candidates the search pins."
+	r.Explain = "Only the clauses of C08 that are visible in the shape of the code are decided; consistency of the backtracking search over all universes is not. C08.a SNAPSHOT-ISOLATED: a new search state is built from Clone/Copy of the previous one (resolution.pushNewState), versionMap.Clone re-makes both its map and its stack and fills them, and criterion.copy re-makes the two maps that are later updated in place, so backtracking to an earlier state finds it unchanged. C08.b VERSIONMAP: the pin table's map and insertion stack are written only by its own Set/Pop/Clone, and Set/Pop update both on every path, so there is one pinned version per package. C08.c GRAPH-SHAPE (buildGraph): a node is added only for a pin that has a route to the root and only when the package has no node yet, the id is recorded in the package-keyed table in the same step (one node per package, every node reachable), and every recorded requirement of a selected package ends in AddEdge, an error return, or the one documented skip (the parent has no node). C08.d ROOT-FIXED: for a requirement on the root's package provider.matchingVersions returns nothing but the root version. C08.e PARENT-KEY: the test by which mergeIntoCriterion decides that a (requirement, parent) pair is already recorded reads every component of the parent that the readers of the recorded parents (buildGraph, hasRouteToRoot) distinguish; otherwise the record of a replaced parent version stands in for the pinned one and the dependency is dropped as disconnected. Not decided: that the selected versions satisfy their specifiers, pip's prerelease rule, marker evaluation, and everything about which candidates the search pins."
 	r.Assume = []string{"hasRouteToRoot is correct (its termination is decided under C04.4)"}
 
 	// ---- a. SNAPSHOT-ISOLATED
@@ -365,7 +365,91 @@ func checkC08(r *Report) {
 			}
 		}
 	}
+	parentKeyRule(r, p, "C08.e/PARENT-KEY")
 	sortObls(r)
+}
+
+// parentKeyRule: mergeIntoCriterion drops a (requirement, parent) pair it
+// believes is already recorded. Whatever the readers of the recorded parents
+// distinguish (hasRouteToRoot uses a parent as a map key and compares it whole
+// with the current pin) the "already recorded" test has to distinguish too,
+// or the record of a replaced parent version stands in for the current one and
+// the dependency is judged disconnected and dropped.
+func parentKeyRule(r *Report, p *Prog, rule string) {
+	const fnName = "(*resolve/pypi.resolution).mergeIntoCriterion"
+	f := p.lookupFn(fnName)
+	if f == nil {
+		r.bad(rule, fnName, "", "function not found: anchor lost")
+		return
+	}
+	var prm *ssa.Parameter
+	for _, x := range f.Params {
+		if x.Name() == "parent" || (prm == nil && strings.HasSuffix(x.Type().String(), "resolve.VersionKey")) {
+			prm = x
+		}
+	}
+	if prm == nil {
+		r.bad(rule, fnName, p.pos(f.Pos()), "no parameter of type resolve.VersionKey: anchor lost")
+		return
+	}
+	st, ok := prm.Type().Underlying().(*types.Struct)
+	if !ok {
+		r.bad(rule, fnName, p.pos(f.Pos()), "parent parameter is not a struct")
+		return
+	}
+	leaves := structLeaves(st)
+	// what the readers of criterion.informationParents distinguish
+	need := map[string]bool{}
+	readers := map[string]bool{}
+	for _, g := range p.Funcs {
+		if g == f || !strings.HasPrefix(fnKey(g), "resolve/pypi.") && !strings.Contains(fnKey(g), "resolve/pypi.") {
+			continue
+		}
+		if strings.HasSuffix(fnKey(g), ".printCriterion") {
+			continue // debugging output
+		}
+		for _, b := range g.Blocks {
+			for _, in := range b.Instrs {
+				ia, ok := in.(*ssa.IndexAddr)
+				if !ok {
+					continue
+				}
+				fv := nearestField(ia.X)
+				if fv == nil || fv.Name() != "informationParents" {
+					continue
+				}
+				before := len(need)
+				leafReads(p, ia, leaves, need)
+				if len(need) > before || len(need) == len(leaves) {
+					readers[fnKey(g)] = true
+				}
+			}
+		}
+	}
+	have := map[string]bool{}
+	leafReads(p, prm, leaves, have)
+	var missing, needed []string
+	for _, l := range leaves {
+		if need[l] {
+			needed = append(needed, l)
+			if !have[l] {
+				missing = append(missing, l)
+			}
+		}
+	}
+	var rs []string
+	for k := range readers {
+		rs = append(rs, k)
+	}
+	sort.Strings(rs)
+	key := fnKey(f) + ": already-recorded test distinguishes what the readers of the recorded parents distinguish"
+	if len(missing) > 0 {
+		r.bad(rule, key, p.pos(f.Pos()), fmt.Sprintf("the readers %v distinguish recorded parents by %v, but the already-recorded test never reads %v of the parent it is given: the record of another version of the parent stands in for this one, and a dependency whose only recorded parent is a replaced version is judged disconnected and silently dropped", rs, needed, missing))
+	} else {
+		r.ok(rule, key, p.pos(f.Pos()), fmt.Sprintf("readers %v use components %v; all are read by the test", rs, needed))
+	}
+	r.floor(rule, "components of a recorded parent used by readers", len(needed), 2)
+	r.floor(rule, "functions reading criterion.informationParents", len(rs), 2)
 }
 
 func sortObls(r *Report) {
